@@ -77,6 +77,20 @@ func countRunGoroutines() int {
 	return strings.Count(string(buf[:n]), "originium.(*DB).run(")
 }
 
+// runGoroutinesSettle returns the number of flush goroutines once it has dropped to want, or what is
+// still there after 3 s: close(db.closed) is the last statement of run(), so right after Close
+// returned the goroutine may still be on its way out for a few microseconds.
+func runGoroutinesSettle(want int) int {
+	deadline := time.Now().Add(3 * time.Second)
+	for {
+		n := countRunGoroutines()
+		if n <= want || time.Now().After(deadline) {
+			return n
+		}
+		time.Sleep(200 * time.Microsecond)
+	}
+}
+
 type c15Writer struct {
 	keys []string
 	last map[string]string
@@ -120,8 +134,8 @@ func runC15(c core.Case) core.Result {
 			for _, db := range dbs {
 				db.Close()
 			}
-			if n := countRunGoroutines(); n != run0 {
-				fail("flusher-survives-close", "%d background flush goroutines are still alive after Close of an idle store", n-run0)
+			if n := runGoroutinesSettle(run0); n != run0 {
+				fail("flusher-survives-close", "%d background flush goroutines are still alive 3 s after Close of an idle store returned", n-run0)
 			}
 			continue
 		}
@@ -191,8 +205,8 @@ func runC15(c core.Case) core.Result {
 			db.Close()
 		}
 		// after Close returned the background flusher has stopped
-		if n := countRunGoroutines(); n != run0 {
-			fail("flusher-survives-close", "%d background flush goroutines are still alive after Close returned", n-run0)
+		if n := runGoroutinesSettle(run0); n != run0 {
+			fail("flusher-survives-close", "%d background flush goroutines are still alive 3 s after Close returned", n-run0)
 		}
 		// ... and the directory can be reopened at once with the complete committed state
 		for di, d := range dirs {
